@@ -220,9 +220,11 @@ def gen_inputs0(tier, rng):
         kind = ["oob", "neg", "asym"][i % 3]
         if rows:
             r = rng.choice(rows); j = rng.randrange(o["sizes"][r])
+            # (never the row's own index: a self-loop adds and subtracts c^2 on the diagonal, and (1e-8 + c^2) - c^2 is not 1e-8 in
+            #  doubles -- a rounding error of 3e-11 relative to the ridge, outside the 1e-11 comparison; no mesh lists a pixel as its own neighbour)
             if kind == "oob": o["nb"][r][j] = n + rng.randint(0, 2)
-            elif kind == "neg": o["nb"][r][j] = -rng.randint(1, n)
-            else: o["nb"][r][j] = (o["nb"][r][j] + 1) % n
+            elif kind == "neg": o["nb"][r][j] = -rng.choice([k for k in range(1, n + 1) if n - k != r])
+            else: o["nb"][r][j] = [v for v in ((o["nb"][r][j] + 1) % n, (o["nb"][r][j] + 2) % n) if v != r][0]
         yield {"op": "mock", "scheme": rand_scheme(rng, rng.choice(["Constant", "ConstantZeroth", "AdaptiveBrightness"])), "obj": o, "malformed": kind}
 
     # R. REAL inversions (aa.Inversion / InversionImagingMapping / InversionImagingWTilde on a real Imaging dataset): block assembly
